@@ -64,3 +64,6 @@ import BacVerif.Props.C18
 #print axioms BacVerif.C18.mixed_keys_distinct
 #print axioms BacVerif.C18.addr_keys_eq_iff
 #print axioms BacVerif.C18.coerced_eq_true
+-- settings history (wave 6)
+#print axioms BacVerif.C18.tupleR_off
+#print axioms BacVerif.C18.tupleR_on
